@@ -208,6 +208,38 @@ func checkC11(c *Ctx) {
 			"encoder writes and decoder consumes Atype and zKeyOrder", fmt.Sprintf("reserved keys differ: encoder %v, decoder %v: type names or field order are lost or appear as data", keys(w), keys(r)))
 	}
 
+	// ---- C11-RESV: the encoding keeps the type name and the key order in-band, under two reserved
+	// names, next to the user's fields. A field with one of these names is written twice in one JSON
+	// object and read back as metadata. The encoder has to compare each user key with the reserved
+	// names (and then refuse or escape it) before it writes the key.
+	if f := c.mustFn("C11-RESV", "SexpHash.jsonHashHelper"); f != nil {
+		keyText := c.fn("jsonKeyText")
+		compared := map[string]bool{}
+		eachInstr(f, func(b *ssa.BasicBlock, i int, in ssa.Instruction) {
+			bo, ok := in.(*ssa.BinOp)
+			if !ok || (bo.Op != token.EQL && bo.Op != token.NEQ) {
+				return
+			}
+			for _, pair := range [][2]ssa.Value{{bo.X, bo.Y}, {bo.Y, bo.X}} {
+				k, isK := pair[1].(*ssa.Const)
+				if !isK || k.Value == nil || k.Value.Kind() != constant.String {
+					continue
+				}
+				// the other side is the key's text
+				isKey := false
+				if call, ok := pair[0].(*ssa.Call); ok && keyText != nil && call.Call.StaticCallee() == keyText {
+					isKey = true
+				}
+				if isKey {
+					compared[constant.StringVal(k.Value)] = true
+				}
+			}
+		})
+		c.check(compared["Atype"] && compared["zKeyOrder"], "C11-RESV", "SexpHash.jsonHashHelper", "user keys tested against the reserved names", f.Pos(),
+			"each key's text is compared with Atype and zKeyOrder before it is written",
+			"the encoder writes every user key with its own text and never compares it with the reserved names Atype / zKeyOrder: (json (hash Atype:\"ranch\" x:1)) contains the key Atype twice, and decoding turns the plain hash into a record of type ranch with the field gone")
+	}
+
 	// ---- C11-ORD
 	sorter := c.fn("makeSortedSlicesFromMap")
 	setOrder := c.fn("SetHashKeyOrder")
